@@ -198,10 +198,14 @@ PROPS["C11"] = {
 }
 
 PROPS["C15"] = {
-    "streams": [{"name": "inst"}, {"name": "view"}],
-    "model_is_spec": ["inst", "view"],
+    "streams": [{"name": "tlv"}, {"name": "inst"}],
+    "model_is_spec": ["tlv", "inst"],
     "spec_theorem": "the model forwards exactly the parent's queued TLVs in order within the room (C15.fwdLoop_spec, announce_suffix), emits decodable Announces <= 1024 octets (C15.announce_fits, announce_decodes) and discards looping Announces without effect (C15.loop_discarded)",
-    "rule": "inst / view: Announces with TLV suffixes of every type class (PATH_TRACE, ALTERNATE_TIME_OFFSET, organisation / experimental "
+    "rule": "tlv: boundary clocks (one to three ports, one Slave, the others Master) whose parent announces with TLV suffixes - PATH_TRACE of "
+            "0..129 entries incl. 117..120 (room boundary) and 127..129 (capacity boundary), with and without the own identity, propagating "
+            "and non-propagating types, value lengths 0..1100 - and whose Master ports fire their announce timers with the queue of what was "
+            "forwarded plus synthetic items sized equal to / 2 above / 2 below the remaining room, from the parent and from other senders, strict "
+            "and loose providers; inst: Announces with TLV suffixes of every type class (PATH_TRACE, ALTERNATE_TIME_OFFSET, organisation / experimental "
             "propagating and non-propagating types), value lengths 0..950, several per Announce, from the parent, other acceptable masters and "
             "unacceptable ones, path traces of 0..129 entries with and without the own identity; announce timers with host queues of zero to "
             "several forwarded TLVs (real ones fed back plus synthetic ones sized equal to / one above / one below the remaining room, from the "
@@ -330,4 +334,4 @@ def replay_body(pid, stream, ops, idx):
     return ops[idx] + "\n"
 
 
-STATEFUL = {"inst", "bmca", "fml", "c07", "master", "view"}
+STATEFUL = {"inst", "bmca", "fml", "c07", "master", "view", "tlv"}
